@@ -140,7 +140,7 @@ func verifC10_cancel() {
 	vInstallRand()
 	t := vNewTransport(nil)
 	t.endMode = vEndBlock
-	which := vChoose("call", 8)
+	which := vChoose("call", 10)
 	if which == 1 || which == 2 {
 		t.writeBlock = true
 	}
@@ -170,7 +170,18 @@ func verifC10_cancel() {
 		t.writeBlock = true
 		vReach("C10.cancel.blocked-close-frame")
 	}
-	vClassify("call", []string{"reader", "write", "ping", "read-body", "streamed-write", "blocked-pong", "blocked-error-close-frame", "blocked-close-echo"}[which])
+	if which == 8 || which == 9 {
+		// a control frame (a Ping that is answered, an unsolicited Pong) is handled inside the read call, then the peer
+		// goes silent: the call is still bounded by its context
+		p := vFrame{fin: true, opcode: uint8(9 + (which - 8)), masked: !client, payload: vBytes("pingp", 1)}
+		if p.masked {
+			copy(p.key[:], vBytes("key", 4))
+		}
+		t = vNewTransport(vEncodeFrame(p))
+		t.endMode = vEndBlock
+		vReach("C10.cancel.after-handled-control-frame")
+	}
+	vClassify("call", []string{"reader", "write", "ping", "read-body", "streamed-write", "blocked-pong", "blocked-error-close-frame", "blocked-close-echo", "reader-after-handled-ping", "reader-after-handled-pong"}[which])
 	c := vNewConn(t, client, nil, 32, 64)
 	ctx, cancel := context.WithCancel(vBG)
 	byTimeout := vChoose("how", 2) == 1
@@ -185,7 +196,7 @@ func verifC10_cancel() {
 	start := vGhostElapsed()
 	var err error
 	switch which {
-	case 0, 5, 6, 7:
+	case 0, 5, 6, 7, 8, 9:
 		_, _, err = c.Reader(ctx)
 	case 1:
 		err = c.Write(ctx, MessageBinary, vBytes("w", 2))
